@@ -158,14 +158,18 @@ def firstBad : List Str → Option WErr
   | [] => none
   | s :: r => if '\n' ∈ s then some .newline else if '|' ∈ s then some .pipe else firstBad r
 
+/-- the build line of an element -/
+def lineOf (e : Elem) : OutBuild :=
+  { outs := e.outs.map slash, implOuts := e.implOuts.map slash, rule := slash (lineRule e),
+    ins := e.ins.map slash, deps := (sortedSet e.deps).map slash,
+    orderdeps := (sortedSet e.orderdeps).map slash }
+
 /-- `NinjaBuildElement.write` (the build line) -/
 def writeElem (e : Elem) : Except WErr OutBuild :=
   if e.outputErrors then .error .multipleProducers
   else match firstBad (e.ins ++ e.outs ++ e.implOuts ++ sortedSet e.deps ++ sortedSet e.orderdeps) with
-  | some x => .error x
-  | none => .ok { outs := e.outs.map slash, implOuts := e.implOuts.map slash, rule := slash (lineRule e),
-             ins := e.ins.map slash, deps := (sortedSet e.deps).map slash,
-             orderdeps := (sortedSet e.orderdeps).map slash }
+    | some x => .error x
+    | none => .ok (lineOf e)
 
 def writeElems : List Elem → Except WErr (List OutBuild)
   | [] => .ok []
